@@ -190,9 +190,16 @@ pub(crate) fn memo_macro(args: TokenStream, item: TokenStream) -> TokenStream {
     output.into()
 }
 
+/// The key of a memoized function. The signature alone does not identify a function:
+/// functions with textually identical signatures can live in different modules (or files),
+/// so the location of the `#[memo]` invocation is part of the key.
 fn hash(input: &Signature) -> u64 {
     let mut s = DefaultHasher::new();
     input.to_token_stream().to_string().hash(&mut s);
+    let call_site = proc_macro::Span::call_site();
+    call_site.file().hash(&mut s);
+    call_site.line().hash(&mut s);
+    call_site.column().hash(&mut s);
     s.finish()
 }
 
